@@ -26,7 +26,9 @@
     - [pool_cap_bind_partial]: bind leaves every pool's count unchanged when the pod's key already holds an IP
       (i.e. when filter allocated, which it always does for a visible sized pool).
     - [pool_cap_history]: in every history in which (a) bind never has to allocate for a pod that carries a pool
-      annotation, (b) the periodic pod-IP sync finds no lost IP of a pool pod to re-adopt and (c) pool names in API
+      annotation, (b) the pod-IP sync finds no lost IP of a pool pod to re-adopt (for the object it works with,
+      [synced_obj] of Proofs/PluginEnvP.v: the informer's current object unless it was handed an earlier incarnation,
+      which it skips; the given object when the informer shows no pod of that name) and (c) pool names in API
       requests are '_'-free ([wf_c07], otherwise exactly [wf_op]), EVERY step keeps the pool under
       max(count before, size in force), where the size in force ([size_in_force]) is the lister's size for a filter
       call of a deployment pod of the pool, the requested size for a pre-allocating API request, and 0 (no growth)
